@@ -10,7 +10,7 @@ import numpy as np
 from .common import model_check, validate_traces, MachineryError, pmap, Collector, dec7
 from .fitworld import frac, fclose
 
-UNITS = ['au', 'pc', 'cm']
+UNITS = ['au', 'pc', 'cm', 'kpc', 'Mpc']          # incl. units in which the stored numbers are tiny
 
 
 def make_conv(aps, rows, unit):
